@@ -152,7 +152,8 @@ class Ctx:
         finally:
             self.cur_rule = None
         n = len([o for o in self.obs[before:] if o.status in ('ok', 'violated')])
-        if n < r['floor']:
+        nbad = len([o for o in self.obs[before:] if o.status == 'violated'])
+        if n < r['floor'] and not nbad:
             raise AnalysisError('rule %s matched %d site(s), fewer than the %d confirmed on the '
                                 'pinned tree: an anchor has vanished or the extractor no longer '
                                 'recognises the code' % (rid, n, r['floor']))
